@@ -294,10 +294,11 @@ pub struct Session {
     pub delivered: Vec<u8>,
     pub dead: Option<String>, // panic message
     pub record: bool,
+    pub oracle_bad: Option<String>, // a recorded payload-encoder answer violates OracleOK
 }
 impl Session {
     pub fn new() -> Self {
-        Session { enc: Enc::new(StandardAlloc::default()), recs: vec![], delivered: vec![], dead: None, record: true }
+        Session { enc: Enc::new(StandardAlloc::default()), recs: vec![], delivered: vec![], dead: None, record: true, oracle_bad: None }
     }
     fn push(&mut self, r: Rec) {
         if self.record { self.recs.push(r); }
@@ -344,6 +345,17 @@ impl Session {
             }
             Ok(ret) => {
                 let out_off = out_off.min(cap);
+                // OracleOK (the hypotheses the Lean theorems put on the payload encoder), checked on
+                // every recorded invocation: it succeeds, a forced invocation leaves nothing
+                // unflushed, and it writes at most 8 * (2 * bytes + 500) bits
+                for e in &events {
+                    let nbits = (e.out_size * 8 + e.cb_after as u64) as i64 - e.cb_before as i64;
+                    let forced_ok = !(e.is_last || e.force_flush) || e.site == 2 || e.lf_after == e.input_pos;
+                    let span = if e.site == 2 { e.bytes } else { e.bytes.max(e.input_pos - e.lf_before) };
+                    if e.result && (nbits < 0 || nbits as u64 > 8 * (2 * span + 500) || !forced_ok) {
+                        self.oracle_bad = Some(format!("site {} bytes {} nbits {} last {} flush {} lf_after {} ip {}", e.site, e.bytes, nbits, e.is_last, e.force_flush, e.lf_after, e.input_pos));
+                    }
+                }
                 self.delivered.extend_from_slice(&buf[..out_off]);
                 if self.record {
                     let after = snap(&self.enc);
@@ -744,6 +756,7 @@ fn judge_plan(cfg: &Cfg, ro: &RunOut, rep: &mut Report, c01: bool, c04: bool) {
         rep.violation(sig, what, case_json(cfg, &ro.sess, ""));
         return;
     }
+    if let Some(b) = &ro.sess.oracle_bad { rep.violation("stream:oracle-ok", &format!("a payload-encoder invocation violates the OracleOK bound assumed by the theorems: {}", b), case_json(cfg, &ro.sess, "")); }
     let s = snap(&ro.sess.enc);
     let large = s.lw;
     // a 1-byte metadata block is a known trigger of its own (metadata-len1-header.md)
@@ -1006,7 +1019,7 @@ pub fn corr_line(sess: &Session, full: bool) -> Option<(String, String)> {
                         hex(&v)
                     } else { "-".into() };
                     tok.push_str(&format!("{}{}.{}.{}.{}", if k == 0 { ":" } else { "/" }, e.result as u8, emit as u8, nbits, bits));
-                    reqs.push_str(&format!("{}{}.{}.{}.{}.{}", if k == 0 { "" } else { "/" }, e.site, if e.site == 2 { e.bytes } else { e.lp_before }, e.input_pos, e.is_last as u8, e.force_flush as u8));
+                    reqs.push_str(&format!("{}{}.{}.{}.{}.{}.{}", if k == 0 { "" } else { "/" }, e.site, if e.site == 2 { e.bytes } else { e.lp_before }, e.input_pos, if e.site == 2 { 0 } else { e.lf_before }, e.is_last as u8, e.force_flush as u8));
                 }
                 if r.events.is_empty() { reqs.push('-'); }
                 ops.push_str(&tok);
@@ -1361,9 +1374,9 @@ pub fn run_cmd(args: &Args) {
     let mut pre_lines = vec![];
     run_corpus(&mut rep, &mut pre_lines);
     let scale = if thorough { 12 } else { 1 };
-    if which == "c01" || which == "all" { outs.extend(stage_plans(args, 1400 * scale, 0xC01, true, false)); }
-    if which == "c04" || which == "all" { outs.extend(stage_plans(args, 1100 * scale, 0xC04, true, true)); }
-    if which == "c05" || which == "all" { outs.extend(stage_pairs(args, 700 * scale)); }
+    if which == "c01" || which == "all" { outs.extend(stage_plans(args, 9000 * scale, 0xC01, true, false)); }
+    if which == "c04" || which == "all" { outs.extend(stage_plans(args, 6000 * scale, 0xC04, true, true)); }
+    if which == "c05" || which == "all" { outs.extend(stage_pairs(args, 3500 * scale)); }
     if which == "c20" || which == "all" {
         outs.extend(stage_exhaustive(args));
         outs.extend(stage_random_contract(args, 3000 * scale));
